@@ -73,7 +73,8 @@ def generate(run_seed, tier):
                   enc=r.choice(["raw", "uncompressed", "compressed",
                                 "hybrid"]),
                   container=r.choice(["bare", "bare", "der", "pem", "object"]),
-                  fseed=r.getrandbits(32))
+                  fseed=r.getrandbits(32),
+                  preload=r.random() < 0.15)
         if mode == "channel":
             it["faults"] = [r.choice(world.BYTE_FAULTS)
                             for _ in range(r.choice([1, 1, 2]))]
@@ -301,6 +302,15 @@ def execute(prog):
                         verdict = ("wrapper", str(ex))
                 if verdict[0] == "skip":
                     continue
+                # ---- another component loaded the same bytes before with
+                # validation switched off (its business); the validated load
+                # below must not be influenced by that
+                if it.get("preload") and cont == "bare":
+                    try:
+                        lk.VerifyingKey.from_string(data, curve,
+                                                    validate_point=False)
+                    except Exception:
+                        pass
                 # ---- the library
                 try:
                     if cont == "object":
